@@ -341,7 +341,7 @@ def plan_c01(prop, tier, seed, t0):
     # gone, a publish whose caller went away) must not lose anything either
     return core_check(prop, tier, seed, t0, over, explore=[("mixed", 48, 1500), ("data", 24, 1500), ("consumers", 24, 1500)], caps=(16, 1, 2),
                       extra_scenarios=lambda quick, sd: extra(quick, sd)
-                      + cancel_scenarios(sd, kinds={"Pull", "Ack", "ModAck", "ModAck30", "Publish"}, quick=quick),
+                      + cancel_scenarios(sd, kinds={"Pull", "Ack", "ModAck", "ModAck30", "Publish", "PublishBig"}, quick=quick),
                       thorough={"mc": dict(MaxOps=7, MaxMsgs=3)}, turns=True)
 
 
@@ -988,6 +988,7 @@ def cancel_scenarios(seed, kinds=None, quick=True):
         "ModAck": dict(op="ModAck", sub=S1, acks=[{"d": 1}], secs=0),
         "ModAck30": dict(op="ModAck", sub=S1, acks=[{"d": 1}], secs=30),
         "Publish": dict(op="Publish", topic=T1, msgs=[{"p": "x1"}, {"p": "x2"}]),
+        "PublishBig": dict(op="Publish", topic=T1, msgs=[{"p": "bulk:600"}]),
         "CreateSub": dict(op="CreateSub", name=S2, topic=T1, ack=10),
         "DeleteSub": dict(op="DeleteSub", name=S1),
         "DeleteTopic": dict(op="DeleteTopic", name=T1),
@@ -996,7 +997,7 @@ def cancel_scenarios(seed, kinds=None, quick=True):
     }
     # which actor a request kind goes through first
     target = {"Pull": "sub", "Ack": "sub", "ModAck": "sub", "ModAck30": "sub", "GetSub": "sub", "DeleteSub": "sub",
-              "Publish": "topic", "CreateSub": "topic", "DeleteTopic": "topic", "ListTopicSubs": "topic"}
+              "Publish": "topic", "PublishBig": "topic", "CreateSub": "topic", "DeleteTopic": "topic", "ListTopicSubs": "topic"}
     n = 0
     for kind, callspec in calls.items():
         if kinds and kind not in kinds:
